@@ -753,9 +753,9 @@ def run(chk, F, A, entries, label, allow_recursion=(), tag="", partitions=True, 
     if only_fns is not None:
         sites = [s for s in sites if s.f.path in only_fns]
     work = all_sites if only_sites is not None else sites
+    # IA and the budget idioms run per partition inside discharge_with_ia (the observations they use - trip counts,
+    # increments, operand intervals - belong to one partition; after the loop only the last partition's are left)
     discharge_with_ia(F, an, entries, work, tree, partitions)
-    capacity_budget(F, an, work)
-    accumulator_budget(F, an, work)
     R, used = apply_obligations(F, A, an, work)
     an._last_sites = all_sites
     by = {}
